@@ -59,6 +59,8 @@ def dataHead (seed : Nat) (n : Nat) : List Nat :=
 structure EnvSpec where
   hard : Option Nat := none
   eof : Option Nat := none
+  /-- one `Ok(0)` at this offset (transient) -/
+  once : Option Nat := none
   clamp : Bool := false
 
 def parseEnv (s : String) : Option EnvSpec :=
@@ -71,6 +73,7 @@ def parseEnv (s : String) : Option EnvSpec :=
       | 'h' :: k => do some { hard := some (← (String.ofList k).toNat?) }
       | 'e' :: k => do some { eof := some (← (String.ofList k).toNat?) }
       | 'i' :: k => do let _ ← (String.ofList k).toNat?; some {}
+      | 't' :: k => do some { once := some (← (String.ofList k).toNat?) }
       | _ => none
     flags.foldlM (fun e f =>
       if f == "c" then some { e with clamp := true }
@@ -211,14 +214,17 @@ def fmtCur (s : RS) : String :=
   | some none => "done"
   | some (some cur) => s!"{cur.w},{cur.h},{cur.len},{if cur.level ≠ 0 then 1 else 0}"
 
-def runOpsD (k : Cfg) (hdr : Option Header) (small : Bool) :
-    List POp → RS → List String → RS × List String
-  | [], s, acc => (s, acc.reverse)
-  | op :: rest, s, acc =>
+/-- `kA`: the stream with the transient end of file still pending, `kB`: after it was consumed
+(a failed read consumes it; such cases contain full reads only) -/
+def runOpsD (kA kB : Cfg) (hdr : Option Header) (small : Bool) :
+    List POp → Bool → RS → List String → RS × List String
+  | [], _, s, acc => (s, acc.reverse)
+  | op :: rest, fired, s, acc =>
+    let k := if fired then kB else kA
     match op with
     | .layout =>
       let t := match hdr with | some h => s!"L={fmtLayout h}" | none => "L=-"
-      runOpsD k hdr small rest s (t :: acc)
+      runOpsD kA kB hdr small rest fired s (t :: acc)
     | op =>
       if s.pos ≥ BIGPOS then (s, ("stop-bigpos" :: acc).reverse) else
       let (s', t) : RS × String := match op with
@@ -240,7 +246,7 @@ def runOpsD (k : Cfg) (hdr : Option Header) (small : Bool) :
           let (s', r) := step k s (.cube w h (colourOf c)); (s', rName r)
         | .rewPrev => if small then let (s', r) := step k s .rewindPrev; (s', rName r) else (s, "skip")
         | .rewStart => if small then let (s', r) := step k s .rewindStart; (s', rName r) else (s, "skip")
-      runOpsD k hdr small rest s' (s!"{t}@{s'.pos}" :: acc)
+      runOpsD kA kB hdr small rest (fired || t == "Io" || t.endsWith ":Io") s' (s!"{t}@{s'.pos}" :: acc)
 
 def runX (t : List String) : String :=
   match t with
@@ -259,10 +265,13 @@ def runX (t : List String) : String :=
       | none => "bad-case"
       | some (dlen, seed) =>
         if !ops.all opOk then "bad-case" else
+        if env.once.isSome ∧ !ops.all (fun o => match o with
+            | .layout | .limit _ | .read _ _ | .all _ => true | _ => false) then "bad-case" else
         let fileLen := pre.length + dlen
         let head := pre ++ dataHead seed (min dlen 192)
         let lim0 := match env.hard with | some k => min fileLen k | none => fileLen
-        let avail := match env.eof with | some k => min lim0 k | none => lim0
+        let avail1 := match env.eof with | some k => min lim0 k | none => lim0
+        let avail := match env.once with | some k => min avail1 k | none => avail1
         let hbytes := head.take avail
         let hpos := hdrEnd opts.skipMagicBytes head avail
         let e : Env := { len := fileLen, fault := env.hard, clampSeek := env.clamp, eofOnce := env.eof }
@@ -283,10 +292,13 @@ def runX (t : List String) : String :=
               joinSp ([hd, s!"fmt={f.name} lay=err:{errName le}", "|"] ++ opsOut ++ ["|", "cur=-"])
             | .error _ => "panic"
             | .ok od =>
-              let k : Cfg := { env := e, fam := od.fam, layout := od.layout }
+              let kB : Cfg := { env := e, fam := od.fam, layout := od.layout }
+              let kA : Cfg := match env.once with
+                | some z => { kB with env := { e with eofOnce := some z } }
+                | none => kB
               let small := match od.layout.dataLenP with | some l => decide (l ≤ I64MAX) | none => false
               let s0 : RS := { iter := SurfIter.new od.layout, pos := hpos, limit := DEFAULT_MEMORY_LIMIT }
-              let (s1, outs) := runOpsD k (some h) small ops s0 []
+              let (s1, outs) := runOpsD kA kB (some h) small ops false s0 []
               joinSp ([hd, s!"fmt={f.name} lay={fmtL od.layout}", "|"] ++ outs ++ ["|", s!"cur={fmtCur s1}"])
     | _, _, _, _ => "bad-case"
   | _ => "bad-case"
